@@ -24,6 +24,22 @@ pub struct RunloopSc {
     pub env: EnvScript,
     pub family: String,
     pub program_text: String,
+    /// An earlier program that was loaded and run() to its end on the same state (on both sides,
+    /// by the real run()) before the judged run: every run() has its own budgets.
+    #[serde(default)]
+    pub prelude: Vec<ISpec>,
+}
+
+/// The earlier run on the same state. `Err` if it panicked (C01's matter).
+fn run_prelude(sc: &RunloopSc, st: &mut PushState, iset: &mut InstructionSet) -> Result<(), ()> {
+    if sc.prelude.is_empty() {
+        return Ok(());
+    }
+    load_program(st, iset, &sc.prelude, false);
+    caught(|| {
+        let _ = PushInterpreter::run(st, iset);
+    })
+    .map_err(|_| ())
 }
 
 /// Instructions outside the quantifier of C02 (RAND-free). Graph instructions
@@ -199,15 +215,28 @@ pub fn generate(seed: u64, instrs: &[String]) -> RunloopSc {
     env.slow = r.chance(1, 5);
     env.map_salt = if r.chance(1, 3) { r.next() | 1 } else { 0 };
     env.p_spawn_fail = *r.pick(&[0u32, 0, 500]);
+    let via_parser = r.chance(1, 2);
+    // one in four: the state has already been through a run() (a short one, one that ends at the
+    // step limit, or a few steps of a counter)
+    let prelude = if r.chance(1, 4) {
+        match r.below(3) {
+            0 => vec![ISpec::L(vec![ISpec::Int(1), ISpec::Int(2), i("INTEGER.+"), i("INTEGER.POP")])],
+            1 => vec![ISpec::L(vec![i("EXEC.Y"), ISpec::L(vec![i("NOOP")])])],
+            _ => vec![counter_body(&mut r, &ctx)],
+        }
+    } else {
+        vec![]
+    };
     RunloopSc {
         seed,
         cfg,
         state,
         program_text: render_program(&prog),
         prog,
-        via_parser: r.chance(1, 2),
+        via_parser,
         env,
         family: family.to_string(),
+        prelude,
     }
 }
 
@@ -263,6 +292,10 @@ pub fn reference(sc: &RunloopSc, iset: &mut InstructionSet, names: &[String], ma
     let mut violations = vec![];
     simenv::begin(&sc.env, envelope(), names, None);
     let mut st = sc.state.build(&sc.cfg);
+    if run_prelude(sc, &mut st, iset).is_err() {
+        simenv::end();
+        return RefResult { accept: vec![], events: 0, step_events: vec![], violations: vec![] };
+    }
     load_program(&mut st, iset, &sc.prog, sc.via_parser);
     // own copy of EXEC onto CODE, same order
     let n = st.exec_stack.size();
@@ -358,8 +391,9 @@ pub fn execute(sc: &RunloopSc, iset: &mut InstructionSet, names: &[String]) -> E
     let mut violations = rf.violations;
     simenv::begin(&sc.env, envelope(), names, None);
     let mut st = sc.state.build(&sc.cfg);
+    let pre = run_prelude(sc, &mut st, iset);
     load_program(&mut st, iset, &sc.prog, sc.via_parser);
-    let res = caught(|| format!("{:?}", PushInterpreter::run(&mut st, iset)));
+    let res = if pre.is_err() { None } else { Some(caught(|| format!("{:?}", PushInterpreter::run(&mut st, iset)))) };
     let core = simenv::end();
     let mut ex = Executed {
         violations: vec![],
@@ -372,8 +406,8 @@ pub fn execute(sc: &RunloopSc, iset: &mut InstructionSet, names: &[String]) -> E
         judged: false,
     };
     let outcome = match res {
-        Ok(o) => o,
-        Err(_) => {
+        Some(Ok(o)) => o,
+        _ => {
             ex.outcome = "panic".into();
             return ex; // C01's matter
         }
